@@ -68,15 +68,15 @@ Qed.
    without being handed on as an answer *)
 Example ex_axfr_bad_serial :
   check_stream_m (mkEntry 0 [5] true XAxfrInit true)
-    (mkMsg 3 true false 0 1 2 0 0 (Some [5]) (Some [Some (RSoa 1); Some (RSoa 2)])) = (false, XError, false).
+    (mkMsg 3 true false 0 1 2 0 0 (Some [5]) (Some [Some (RSoa 1); Some (RSoa 2)]) None) = (false, XError, false).
 Proof. vm_compute. reflexivity. Qed.
 
 Example ex_ixfr :
   check_stream_m (mkEntry 0 [5] true XIxfrInit false)
     (mkMsg 3 true false 0 1 5 0 0 (Some [5])
-       (Some [Some (RSoa 3); Some (RSoa 1); Some ROther; Some (RSoa 3); Some ROther])) = (false, XIxfrSecondDiffSoa 3, true) /\
+       (Some [Some (RSoa 3); Some (RSoa 1); Some ROther; Some (RSoa 3); Some ROther]) None) = (false, XIxfrSecondDiffSoa 3, true) /\
   check_stream_m (mkEntry 0 [5] true (XIxfrSecondDiffSoa 3) false)
-    (mkMsg 3 true false 0 1 1 0 0 (Some [5]) (Some [Some (RSoa 3)])) = (true, XDone, true).
+    (mkMsg 3 true false 0 1 1 0 0 (Some [5]) (Some [Some (RSoa 3)]) None) = (true, XDone, true).
 Proof. vm_compute. auto. Qed.
 
 (* ---- one stream element per reply ---- *)
@@ -94,10 +94,10 @@ Proof. induction l1 as [|[[c' mu] d] r IH]; cbn [elems app]; lia. Qed.
    element (the message or WrongReplyForQuery) to that request's caller and
    nothing to anybody else; the entry stays under the same ID unless the
    stream ended *)
-Theorem multi_element_once cs idle s m s' e :
+Theorem multi_element_once cs s m s' e :
   q_inv (st_q s) -> st_conn s = COpen ->
   q_get (st_q s) (m_id m) = Some e -> e_multi e = true ->
-  s_step cs idle s (EReply m) = Ok s' ->
+  s_step cs s (EReply m) = Ok s' ->
   (forall c, elems c (st_log s') = elems c (st_log s) + (if e_caller e =? c then 1 else 0)) /\
   (fst (fst (cs e m)) = false ->
      exists e', q_get (st_q s') (m_id m) = Some e' /\ e_caller e' = e_caller e /\ e_qs e' = e_qs e /\
@@ -118,4 +118,16 @@ Proof.
     + intros c. rewrite elems_app. cbn [elems]. rewrite !andb_true_r.
       destruct (e_caller e =? c); destruct isans; cbn; lia.
     + intros _. eexists. split; [rewrite Hget''; unfold upd; rewrite N.eqb_refl; reflexivity|]. auto.
+Qed.
+
+(* a reply nobody waits for still has its options handled: a keepalive timeout
+   of zero closes a connection that is idle *)
+Lemma idle_keepalive_zero_closes cs s m :
+  q_inv (st_q s) -> st_conn s = COpen -> st_idle s = true ->
+  q_get (st_q s) (m_id m) = None -> m_ka m = Some (Some 0) ->
+  exists s', s_step cs s (EReply m) = Ok s' /\ st_conn s' = CDown 10 /\ st_log s' = st_log s.
+Proof.
+  intros Hq Hc Hi Hg Hk. cbn [s_step]. rewrite Hc.
+  destruct (remove_spec (st_q s) (m_id m) Hq) as (q' & Er & _). rewrite Er, Hg, Hi, Hk.
+  eexists. split; [reflexivity|]. cbn. auto.
 Qed.
